@@ -19,10 +19,13 @@ stands for it (every label emits at most one visible event, stamped with the vir
   `resp i`     the response reaches the caller's connection: a registered call is completed,
                anything else (the call was retired: a LATE response) is discarded without effect.
   `retOk i`    the caller returns the response (event `ret ok`).
-  `cancel i`   the call's context ends (event `can`); nothing else happens in this step.
-  `retCtx i`   `mcp.call` sees the ended context: `conn.Retire`, then the detached notifier is
-               started, then the caller returns the context's error (event `ret ctx`).  Enabled
-               by the caller's own state alone.
+  `cancel i`   the call's context ends (event `can`).  On a stateless server that ties handlers to
+               their HTTP exchange (`propagate`) the client aborts the exchange in this very step:
+               the "notice" of such a call is the abort (`abortIsNotice`), pending from here on.
+  `retire i`   `mcp.call` sees the ended context: `conn.Retire`, then the detached notifier is
+               started (the order is a regenerated fact).  Enabled by the caller's own state alone.
+  `retCtx i`   … and returns the context's error (event `ret ctx`); the notifier runs concurrently,
+               so its effect on the peer may be seen before or after this event.
   `notice i`   the notifier's `conn.Notify(notifications/cancelled)` is written on `noticeRoute i`
                — the route computed from the VALUES of the call's context if `keepValues`
                (`context.WithoutCancel(ctx)`, regenerated), from no values otherwise — and the peer's
@@ -145,7 +148,7 @@ deriving DecidableEq, Repr, Inhabited
 
 inductive Label where
   | call (i : Nat) | deliver (i : Nat) | start (i : Nat) | skip (i : Nat) | finish (i : Nat)
-  | resp (i : Nat) | retOk (i : Nat) | cancel (i : Nat) (dl : Bool) | retCtx (i : Nat)
+  | resp (i : Nat) | retOk (i : Nat) | cancel (i : Nat) (dl : Bool) | retire (i : Nat) | retCtx (i : Nat)
   | notice (i : Nat) | drop (i : Nat) | tick (d : Nat)
 deriving DecidableEq, Repr, Inhabited
 
@@ -154,6 +157,8 @@ structure St where
   req : Nat → RPhase := fun _ => .idle
   reg : Nat → Bool := fun _ => false
   got : Nat → Bool := fun _ => false
+  /-- the call was retired because its context ended; the caller is about to return -/
+  retired : Nat → Bool := fun _ => false
   res : Nat → Option Res := fun _ => none
   ctxDone : Nat → Option Bool := fun _ => none
   notice : Nat → NPhase := fun _ => .none
@@ -185,12 +190,16 @@ def enclRunning (c : Cfg) (s : St) (i : Nat) : Bool :=
   | some p => s.req p == .running
   | none => true
 
+/-- What reaches the peer is the end of the call's own HTTP exchange, at the moment the context ends. -/
+def abortIsNotice (c : Cfg) (i : Nat) : Bool :=
+  c.tr == .stateless && c.propagate && (c.info i).dir == .c2s
+
 def payload (c : Cfg) (i : Nat) : Option Nat := if (c.info i).plain then none else some i
 
 /-- What must happen before virtual time may advance, for call i. -/
 def urgent (c : Cfg) (s : St) (i : Nat) : Bool :=
   s.req i == .transit
-  || (s.ctxDone i != none && (s.reg i || s.got i) && s.res i == none)
+  || (s.ctxDone i != none && (s.reg i || s.got i || s.retired i) && s.res i == none)
   || (s.notice i == .pending && !(c.info i).fault)
 
 def quiet (c : Cfg) (s : St) : Bool := (List.range c.n).all fun i => !urgent c s i
@@ -231,15 +240,25 @@ def step (c : Cfg) (s : St) : Label → Option St
     else none
   | .cancel i dl =>
     if i < c.n ∧ s.ctxDone i = none ∧ s.req i ≠ .idle then
-      some { s with ctxDone := upd s.ctxDone i (some dl), trace := emit s (.can dl) i }
+      if abortIsNotice c i = true then
+        some { s with ctxDone := upd s.ctxDone i (some dl), notice := upd s.notice i .pending,
+                      noticeAt := upd s.noticeAt i s.now, trace := emit s (.can dl) i }
+      else
+        some { s with ctxDone := upd s.ctxDone i (some dl), trace := emit s (.can dl) i }
+    else none
+  | .retire i =>
+    if s.ctxDone i ≠ none ∧ (s.reg i = true ∨ s.got i = true) ∧ s.res i = none then
+      if abortIsNotice c i = true then
+        some { s with reg := upd s.reg i false, got := upd s.got i false, retired := upd s.retired i true }
+      else
+        some { s with reg := upd s.reg i false, got := upd s.got i false, retired := upd s.retired i true,
+                      notice := upd s.notice i .pending, noticeAt := upd s.noticeAt i s.now }
     else none
   | .retCtx i =>
     match s.ctxDone i with
     | some dl =>
-      if (s.reg i = true ∨ s.got i = true) ∧ s.res i = none then
-        some { s with reg := upd s.reg i false, got := upd s.got i false, res := upd s.res i (some (.ctx dl)),
-                      notice := upd s.notice i .pending, noticeAt := upd s.noticeAt i s.now,
-                      trace := emit s (.ret (.ctx dl)) i }
+      if s.retired i = true ∧ s.res i = none then
+        some { s with res := upd s.res i (some (.ctx dl)), trace := emit s (.ret (.ctx dl)) i }
       else none
     | none => none
   | .notice i =>
